@@ -1,4 +1,5 @@
 import CifModel.Lemmas.LadderMap
+import CifModel.Lemmas.LadderSummary
 import CifModel.Model.LadderTree
 /-
   CifModel.Lemmas.LadderTree — arbitrarily nested values (Model/LadderTree): uthash's bookkeeping as a pure function of
@@ -575,5 +576,369 @@ theorem cloneV_spec (k : Nat) (sh : VShape) (s : St) (L : List Nat) (h : Inv s L
       exact ⟨o, h1, hw, (Good.alloc hk).trans h2, h3⟩
     · right
       exact ⟨h1, (Good.alloc hk).bad h2, h3⟩
+
+-- ---------------------------------------------------------------------------------------------------------------
+-- cif_value_deserialize of an arbitrary blob
+
+mutual
+  /-- number of requests of `deserIntoV` on a shape (fault-free) -/
+  def dvallocs : VShape → Nat
+    | .scalar => 0
+    | .chr => 1
+    | .numb hasSu => if hasSu then 3 else 2
+    | .lst es => if es.isEmpty then 0 else 1 + dvallocsList es
+    | .tbl es => dvallocsEntries es none []
+  def dvallocsList : List VShape → Nat
+    | [] => 0
+    | e :: es => 1 + dvallocs e + dvallocsList es
+  /-- per entry: key, key_orig, the entry block and the value's components, then what HASH_ADD_KEYPTR requests -/
+  def dvallocsEntries : List (Str × VShape) → Option BK → List Nat → Nat
+    | [], _, _ => 0
+    | (key, sh) :: rest, b, hs =>
+      3 + dvallocs sh + (bkAdd b (hs ++ [hashJen (keyBytes key)]) (hashJen (keyBytes key))).2 +
+        dvallocsEntries rest (some (bkAdd b (hs ++ [hashJen (keyBytes key)]) (hashJen (keyBytes key))).1)
+          (hs ++ [hashJen (keyBytes key)])
+end
+
+mutual
+  theorem deserIntoV_spec (k obj : Nat) : ∀ (sh : VShape) (s : St) (L : List Nat), Inv s (obj :: L) →
+      (∃ o, (deserIntoV k obj sh s).1 = some o ∧ o.WF ∧ Good k (dvallocs sh) s (deserIntoV k obj sh s).2 ∧
+          Inv (deserIntoV k obj sh s).2 (o.ids ++ L)) ∨
+      ((deserIntoV k obj sh s).1 = none ∧ Bad k (dvallocs sh) s (deserIntoV k obj sh s).2 ∧ Inv (deserIntoV k obj sh s).2 L)
+    | .scalar, s, L, h => by
+      left
+      simp only [deserIntoV, dvallocs]
+      exact ⟨_, rfl, trivial, Good.refl k s, h⟩
+    | .chr, s, L, h => by
+      simp only [deserIntoV, dvallocs]
+      rcases alloc_cases k s with ⟨hk, ha⟩ | ⟨hk, ha⟩ <;> simp only [ha]
+      · right
+        exact ⟨trivial, (Bad.alloc hk).free _, h.fail.free⟩
+      · left
+        exact ⟨_, rfl, trivial, Good.alloc hk, h.alloc.perm (by perm_av)⟩
+    | .numb hasSu, s, L, h => by
+      simp only [deserIntoV, dvallocs]
+      rcases alloc_cases k s with ⟨hk, ha⟩ | ⟨hk, ha⟩ <;> simp only [ha]
+      · right
+        exact ⟨trivial, ((Bad.alloc hk).free _).mono (by split <;> omega), h.fail.free⟩
+      · have g1 := Good.alloc hk
+        have i1 := h.alloc
+        generalize ({ count := s.count + 1, evs := s.evs ++ [.alloc (s.count + 1)] } : St) = s1 at g1 i1 ⊢
+        generalize s.count + 1 = t at g1 i1 ⊢
+        cases hasSu with
+        | false =>
+          simp only [Bool.false_eq_true, if_false]
+          rcases alloc_cases k s1 with ⟨hk, ha⟩ | ⟨hk, ha⟩ <;> simp only [ha]
+          · right
+            exact ⟨trivial, g1.bad' (((Bad.alloc hk).free _).free _) (by omega), Inv.free (Inv.free i1.fail)⟩
+          · left
+            exact ⟨_, rfl, trivial, g1.trans (Good.alloc hk), i1.alloc.perm (by perm_av)⟩
+        | true =>
+          simp only [if_true]
+          rcases alloc_cases k s1 with ⟨hk, ha⟩ | ⟨hk, ha⟩ <;> simp only [ha]
+          · right
+            exact ⟨trivial, g1.bad' (((Bad.alloc hk).free _).free _) (by omega), Inv.free (Inv.free i1.fail)⟩
+          · have g2 := g1.trans (Good.alloc hk)
+            have i2 := i1.alloc
+            generalize ({ count := s1.count + 1, evs := s1.evs ++ [.alloc (s1.count + 1)] } : St) = s2 at g2 i2 ⊢
+            generalize s1.count + 1 = u at g2 i2 ⊢
+            rcases alloc_cases k s2 with ⟨hk, ha⟩ | ⟨hk, ha⟩ <;> simp only [ha]
+            · right
+              exact ⟨trivial, g2.bad' ((((Bad.alloc hk).free _).free _).free _) (by omega),
+                Inv.free (Inv.free (Inv.free i2.fail))⟩
+            · left
+              exact ⟨_, rfl, trivial, g2.trans (Good.alloc hk), i2.alloc.perm (by perm_av)⟩
+    | .lst [], s, L, h => by
+      left
+      simp only [deserIntoV, dvallocs, List.isEmpty_nil, if_true]
+      exact ⟨_, rfl, trivial, Good.refl k s, h⟩
+    | .lst (e :: es), s, L, h => by
+      simp only [deserIntoV, dvallocs, List.isEmpty_cons, Bool.false_eq_true, if_false]
+      rcases alloc_cases k s with ⟨hk, ha⟩ | ⟨hk, ha⟩ <;> simp only [ha]
+      · right
+        exact ⟨trivial, ((Bad.alloc hk).free _).mono (by omega), h.fail.free⟩
+      · have g1 := Good.alloc hk
+        have i1 := h.alloc
+        generalize ({ count := s.count + 1, evs := s.evs ++ [.alloc (s.count + 1)] } : St) = s1 at g1 i1 ⊢
+        generalize s.count + 1 = arr at g1 i1 ⊢
+        have hh := deserElemsV_spec k (e :: es) [] s1 (arr :: obj :: L) trivial (by simpa [VOwned.idsList] using i1)
+        generalize deserElemsV k (e :: es) [] s1 = r at hh ⊢
+        obtain ⟨ro, rs⟩ := r
+        rcases hh with ⟨os, h1, hw, h2, h3⟩ | ⟨h1, h2, h3⟩ <;> simp only at h1 h2 h3 <;> subst h1 <;> simp only
+        · left
+          exact ⟨_, rfl, hw, g1.trans h2, h3.perm (by perm_av)⟩
+        · right
+          exact ⟨trivial, g1.bad' ((h2.free _).free _) (by omega), h3.free.free⟩
+    | .tbl es, s, L, h => by
+      simp only [deserIntoV, dvallocs]
+      have hh := deserEntriesV_spec k es none [] s (obj :: L) (fun _ => rfl) trivial
+        (by simpa [utBlocks, VOwned.idsEntries] using h)
+      simp only [Option.map, hashes, List.map_nil] at hh
+      generalize deserEntriesV k es none [] s = r at hh ⊢
+      obtain ⟨ro, rs⟩ := r
+      rcases hh with ⟨ut', es', h1, hw1, hw2, h2, h3⟩ | ⟨h1, h2, h3⟩ <;> simp only at h1 h2 h3 <;> subst h1 <;> simp only
+      · left
+        exact ⟨_, rfl, ⟨hw1, hw2⟩, h2, h3.perm (by perm_av)⟩
+      · right
+        exact ⟨trivial, h2.free _, h3.free⟩
+  theorem deserElemsV_spec (k : Nat) : ∀ (es : List VShape) (done : List VOwned) (s : St) (L : List Nat),
+      VOwned.WFList done.reverse → Inv s (VOwned.idsList done.reverse ++ L) →
+      (∃ os, (deserElemsV k es done s).1 = some os ∧ VOwned.WFList os ∧ Good k (dvallocsList es) s (deserElemsV k es done s).2 ∧
+          Inv (deserElemsV k es done s).2 (VOwned.idsList os ++ L)) ∨
+      ((deserElemsV k es done s).1 = none ∧ Bad k (dvallocsList es) s (deserElemsV k es done s).2 ∧
+          Inv (deserElemsV k es done s).2 L)
+    | [], done, s, L, w, h => by
+      left
+      simp only [deserElemsV, dvallocsList]
+      exact ⟨_, rfl, w, Good.refl k s, h⟩
+    | sh :: rest, done, s, L, w, h => by
+      simp only [deserElemsV, dvallocsList]
+      rcases alloc_cases k s with ⟨hk, ha⟩ | ⟨hk, ha⟩ <;> simp only [ha]
+      · right
+        have ⟨f1, f2⟩ := freeRevV_spec done.reverse _ L w h.fail
+        exact ⟨trivial, ((Bad.alloc hk).same f2).mono (by omega), f1⟩
+      · have g1 := Good.alloc hk
+        have i1 := h.alloc
+        generalize ({ count := s.count + 1, evs := s.evs ++ [.alloc (s.count + 1)] } : St) = s1 at g1 i1 ⊢
+        generalize s.count + 1 = obj at g1 i1 ⊢
+        have hh := deserIntoV_spec k obj sh s1 _ i1
+        generalize deserIntoV k obj sh s1 = r at hh ⊢
+        obtain ⟨ro, rs⟩ := r
+        rcases hh with ⟨o, h1, hwo, h2, h3⟩ | ⟨h1, h2, h3⟩ <;> simp only at h1 h2 h3 <;> subst h1 <;> simp only
+        · have w2 : VOwned.WFList (o :: done).reverse := by
+            rw [List.reverse_cons, WFList_append]; exact ⟨w, hwo, trivial⟩
+          have i2 : Inv rs (VOwned.idsList (o :: done).reverse ++ L) := by
+            rw [List.reverse_cons, idsListV_append]
+            exact h3.perm (by perm_av)
+          rcases deserElemsV_spec k rest (o :: done) _ L w2 i2 with ⟨os, e1, ew, e2, e3⟩ | ⟨e1, e2, e3⟩
+          · left
+            exact ⟨os, e1, ew, (g1.trans h2).trans' e2 (by omega), e3⟩
+          · right
+            exact ⟨e1, (g1.trans h2).bad' e2 (by omega), e3⟩
+        · right
+          have ⟨f1, f2⟩ := freeRevV_spec done.reverse _ L w h3
+          exact ⟨trivial, (g1.bad' h2 (by omega)).same f2, f1⟩
+  theorem deserEntriesV_spec (k : Nat) : ∀ (src : List (Str × VShape)) (ut : Option UT) (done : List (EKey × VOwned))
+      (s : St) (L : List Nat), (done = [] → ut = none) → VOwned.WFEntries done →
+      Inv s (utBlocks ut ++ (VOwned.idsEntries done ++ L)) →
+      (∃ ut' es', (deserEntriesV k src ut done s).1 = some (ut', es') ∧ (es' = [] → ut' = none) ∧ VOwned.WFEntries es' ∧
+          Good k (dvallocsEntries src (ut.map bkOf) (hashes done)) s (deserEntriesV k src ut done s).2 ∧
+          Inv (deserEntriesV k src ut done s).2 (utBlocks ut' ++ (VOwned.idsEntries es' ++ L))) ∨
+      ((deserEntriesV k src ut done s).1 = none ∧
+          Bad k (dvallocsEntries src (ut.map bkOf) (hashes done)) s (deserEntriesV k src ut done s).2 ∧
+          Inv (deserEntriesV k src ut done s).2 L)
+    | [], ut, done, s, L, hu, w, h => by
+      left
+      simp only [deserEntriesV, dvallocsEntries]
+      exact ⟨ut, done, rfl, hu, w, Good.refl k s, h⟩
+    | (key, sh) :: rest, ut, done, s, L, hu, w, h => by
+      have hclean : ∀ (s' : St), Inv s' (utBlocks ut ++ (VOwned.idsEntries done ++ L)) →
+          Inv (cleanEntriesV ut done s') L ∧ Same s' (cleanEntriesV ut done s') :=
+        fun s' hs => cleanEntriesV_spec ut done s' L hu w hs
+      simp only [deserEntriesV, dvallocsEntries]
+      generalize hN : (bkAdd (ut.map bkOf) (hashes done ++ [hashJen (keyBytes key)]) (hashJen (keyBytes key))) = bk
+      rcases alloc_cases k s with ⟨hk, ha⟩ | ⟨hk, ha⟩ <;> simp only [ha]
+      · right
+        have ⟨c1, c2⟩ := hclean _ h.fail
+        exact ⟨trivial, ((Bad.alloc hk).same c2).mono (by omega), c1⟩
+      · have g1 := Good.alloc hk
+        have i1 := h.alloc
+        generalize ({ count := s.count + 1, evs := s.evs ++ [.alloc (s.count + 1)] } : St) = s1 at g1 i1 ⊢
+        generalize s.count + 1 = kb at g1 i1 ⊢
+        rcases alloc_cases k s1 with ⟨hk, ha⟩ | ⟨hk, ha⟩ <;> simp only [ha]
+        · right
+          have ⟨c1, c2⟩ := hclean _ (Inv.free i1.fail)
+          exact ⟨trivial, (g1.bad' ((Bad.alloc hk).free _) (by omega)).same c2, c1⟩
+        · have g2 := g1.trans (Good.alloc hk)
+          have i2 := i1.alloc
+          generalize ({ count := s1.count + 1, evs := s1.evs ++ [.alloc (s1.count + 1)] } : St) = s2 at g2 i2 ⊢
+          generalize s1.count + 1 = ob at g2 i2 ⊢
+          rcases alloc_cases k s2 with ⟨hk, ha⟩ | ⟨hk, ha⟩ <;> simp only [ha]
+          · right
+            have i2f : Inv { count := s2.count + 1, evs := s2.evs ++ [.fail (s2.count + 1)] }
+                (ob :: kb :: (utBlocks ut ++ (VOwned.idsEntries done ++ L))) := i2.fail
+            have ⟨c1, c2⟩ := hclean _ i2f.free.free
+            exact ⟨trivial, (g2.bad' (((Bad.alloc hk).free _).free _) (by omega)).same c2, c1⟩
+          · have g3 := g2.trans (Good.alloc hk)
+            have i3 := i2.alloc
+            generalize ({ count := s2.count + 1, evs := s2.evs ++ [.alloc (s2.count + 1)] } : St) = s3 at g3 i3 ⊢
+            generalize s2.count + 1 = ent at g3 i3 ⊢
+            have hh := deserIntoV_spec k ent sh s3 _ i3
+            generalize deserIntoV k ent sh s3 = r at hh ⊢
+            obtain ⟨ro, s4⟩ := r
+            rcases hh with ⟨v, h1, hwv, h2, h3⟩ | ⟨h1, h2, h3⟩ <;> simp only at h1 h2 h3 <;> subst h1 <;> simp only
+            · have g4 := g3.trans h2
+              have i4 : Inv s4 (utBlocks ut ++ (v.ids ++ (ob :: kb :: (VOwned.idsEntries done ++ L)))) := h3.perm (by perm_av)
+              have hh := hashAdd_bk k { ut := ut, entries := shadow done }
+                (shadowEntry { key := kb, orig := ob, hashv := hashJen (keyBytes key) }) s4 _
+                (by rw [utIds_eq_utBlocks]; exact i4)
+              simp only [shadow_hashes] at hh
+              have he : (shadowEntry { key := kb, orig := ob, hashv := hashJen (keyBytes key) }).hashv = hashJen (keyBytes key) := rfl
+              rw [he, hN] at hh
+              generalize hashAdd k { ut := ut, entries := shadow done }
+                (shadowEntry { key := kb, orig := ob, hashv := hashJen (keyBytes key) }) s4 = r at hh ⊢
+              obtain ⟨ro, s5⟩ := r
+              rcases hh with ⟨u', a1, ab, a4, a5⟩ | ⟨t, a1, a4, a5⟩ <;> simp only at a1 a4 a5 <;> subst a1 <;> simp only
+              · have w' : VOwned.WFEntries (done ++ [({ key := kb, orig := ob, hashv := hashJen (keyBytes key) }, v)]) := by
+                  rw [WFEntries_append]; exact ⟨w, hwv, trivial⟩
+                have i6 : Inv s5 (utBlocks (some u') ++
+                    (VOwned.idsEntries (done ++ [({ key := kb, orig := ob, hashv := hashJen (keyBytes key) }, v)]) ++ L)) := by
+                  rw [idsEntries_append]
+                  refine a5.perm ?_
+                  simp only [VOwned.idsEntries, utBlocks, UT.ids]; perm_av
+                have ih := deserEntriesV_spec k rest (some u')
+                  (done ++ [({ key := kb, orig := ob, hashv := hashJen (keyBytes key) }, v)]) s5 L
+                  WF_tbl_nonempty w' i6
+                rw [hashes_append] at ih
+                simp only [Option.map] at ih
+                rw [ab] at ih
+                rcases ih with ⟨ut', es', e1, e2, e3, e4, e5⟩ | ⟨e1, e4, e5⟩
+                · left
+                  exact ⟨ut', es', e1, e2, e3, ((g4.trans a4).trans' e4 (by omega)), e5⟩
+                · right
+                  exact ⟨e1, (g4.trans a4).bad' e4 (by omega), e5⟩
+              · right
+                have i6 : Inv s5 (t ++ (v.ids ++ (ob :: kb :: (utBlocks ut ++ (VOwned.idsEntries done ++ L))))) := by
+                  refine a5.perm ?_
+                  rw [utIds_eq_utBlocks]
+                  perm_av
+                have i7 := i6.freeAll t _ _
+                have ⟨f1, f2⟩ := freeV_spec v (freeAll t s5) (ob :: kb :: (utBlocks ut ++ (VOwned.idsEntries done ++ L))) hwv i7
+                have ⟨c1, c2⟩ := hclean _ f1.free.free
+                refine ⟨trivial, ?_, c1⟩
+                exact (((((g4.bad a4).same (Same.freeAll t s5)).same f2).free _).free _).same c2 |>.mono (by omega)
+            · right
+              have i5 : Inv s4 (ob :: kb :: (utBlocks ut ++ (VOwned.idsEntries done ++ L))) := h3
+              have ⟨c1, c2⟩ := hclean _ i5.free.free
+              exact ⟨trivial, (((g3.bad h2).free _).free _).same c2 |>.mono (by omega), c1⟩
+end
+
+/-- number of requests of `cif_value_deserialize` of a blob (fault-free) -/
+def deserVAllocs : VBlob → Nat
+  | .lst elems => if elems.isEmpty then 0 else 1 + dvallocsList elems
+  | .tbl entries => dvallocsEntries entries none []
+
+/-- `cif_value_deserialize` of ANY list / table blob onto an existing object, from any consistent state -/
+theorem deserV_spec (k : Nat) (b : VBlob) (s : St) (L : List Nat) (h : Inv s L) :
+    (∃ g, (deserV k b s).1 = OK ∧ (deserV k b s).2.1 = some g ∧
+        Good k (deserVAllocs b) s (deserV k b s).2.2 ∧ Inv (deserV k b s).2.2 (g ++ L)) ∨
+    ((deserV k b s).1 = MEMORY_ERROR ∧ (deserV k b s).2.1 = none ∧
+        Bad k (deserVAllocs b) s (deserV k b s).2.2 ∧ Inv (deserV k b s).2.2 L) := by
+  cases b with
+  | lst elems =>
+    cases elems with
+    | nil =>
+      left
+      simp only [deserV, deserVAllocs, List.isEmpty_nil, if_true]
+      exact ⟨[], by trivial, by trivial, Good.refl k s, h⟩
+    | cons e es =>
+      simp only [deserV, deserVAllocs, List.isEmpty_cons, Bool.false_eq_true, if_false]
+      rcases alloc_cases k s with ⟨hk, ha⟩ | ⟨hk, ha⟩ <;> simp only [ha]
+      · right
+        exact ⟨trivial, trivial, (Bad.alloc hk).mono (by omega), h.fail⟩
+      · have g1 := Good.alloc hk
+        have i1 := h.alloc
+        generalize ({ count := s.count + 1, evs := s.evs ++ [.alloc (s.count + 1)] } : St) = s1 at g1 i1 ⊢
+        generalize s.count + 1 = arr at g1 i1 ⊢
+        have hh := deserElemsV_spec k (e :: es) [] s1 (arr :: L) trivial (by simpa [VOwned.idsList] using i1)
+        generalize deserElemsV k (e :: es) [] s1 = r at hh ⊢
+        obtain ⟨ro, rs⟩ := r
+        rcases hh with ⟨os, h1, _, h2, h3⟩ | ⟨h1, h2, h3⟩ <;> simp only at h1 h2 h3 <;> subst h1 <;> simp only
+        · left
+          exact ⟨_, by trivial, rfl, g1.trans h2, h3.perm (by perm_av)⟩
+        · right
+          exact ⟨by trivial, by trivial, g1.bad' (h2.free _) (by omega), h3.free⟩
+  | tbl entries =>
+    simp only [deserV, deserVAllocs]
+    have hh := deserEntriesV_spec k entries none [] s L (fun _ => rfl) trivial
+      (by simpa [utBlocks, VOwned.idsEntries] using h)
+    simp only [Option.map, hashes, List.map_nil] at hh
+    generalize deserEntriesV k entries none [] s = r at hh ⊢
+    obtain ⟨ro, rs⟩ := r
+    rcases hh with ⟨ut', es', h1, _, _, h2, h3⟩ | ⟨h1, h2, h3⟩ <;> simp only at h1 h2 h3 <;> subst h1 <;> simp only
+    · left
+      exact ⟨_, by trivial, rfl, h2, by simpa using h3⟩
+    · right
+      exact ⟨by trivial, by trivial, h2, h3⟩
+
+-- ---------------------------------------------------------------------------------------------------------------
+-- summaries (what Props/C17Tree restates)
+
+theorem failIds_snoc_ne (a : List Nat) (k : Nat) : a ++ [k] ≠ a := by
+  intro h
+  have := congrArg List.length h
+  simp at this
+
+/-- `cif_value_clone` of any value from any state in which `rest` is live -/
+theorem cloneV_summary (k : Nat) (sh : VShape) (s : St) (rest : List Nat) (hb : Balanced s.evs rest)
+    (hc : ∀ i ∈ rest, i ≤ s.count) :
+    Balanced (cloneV k sh s).2.evs ((match (cloneV k sh s).1 with | some o => o.ids | none => []) ++ rest) ∧
+    ((cloneV k sh s).1.isNone ↔ s.count < k ∧ k ≤ s.count + cloneVAllocs sh) ∧
+    ((cloneV k sh s).1.isNone → failIds (cloneV k sh s).2.evs = failIds s.evs ++ [k] ∧ (cloneV k sh s).2.count = k) ∧
+    ((cloneV k sh s).1.isSome → failIds (cloneV k sh s).2.evs = failIds s.evs ∧
+        (cloneV k sh s).2.count = s.count + cloneVAllocs sh) ∧
+    (∀ o, (cloneV k sh s).1 = some o → o.WF) := by
+  rcases cloneV_spec k sh s rest ⟨hb, hc⟩ with ⟨o, h1, hw, h2, h3⟩ | ⟨h1, h2, h3⟩
+  · rw [h1]
+    unfold Good at h2
+    refine ⟨h3.1, ⟨fun h => by simp at h, fun h => absurd h h2.2.1⟩, fun h => by simp at h, fun _ => ⟨h2.2.2, h2.1⟩, ?_⟩
+    intro o' e; cases e; exact hw
+  · rw [h1]
+    unfold Bad at h2
+    refine ⟨by simpa using h3.1, ⟨fun _ => ⟨h2.1, h2.2.1⟩, fun _ => rfl⟩, fun _ => ⟨h2.2.2.2, h2.2.2.1⟩, fun h => by simp at h, ?_⟩
+    intro o' e; cases e
+
+/-- the fault-free run succeeds and makes exactly `cloneVAllocs` requests -/
+theorem cloneV_faultfree (sh : VShape) (s : St) (rest : List Nat) (hb : Balanced s.evs rest) (hc : ∀ i ∈ rest, i ≤ s.count) :
+    (cloneV 0 sh s).1.isSome ∧ (cloneV 0 sh s).2.count = s.count + cloneVAllocs sh := by
+  have h := cloneV_summary 0 sh s rest hb hc
+  have hs : (cloneV 0 sh s).1.isSome := by
+    cases hn : (cloneV 0 sh s).1 with
+    | some o => rfl
+    | none =>
+      have := h.2.1.mp (by rw [hn]; rfl)
+      omega
+  exact ⟨hs, (h.2.2.2.1 hs).2⟩
+
+/-- `cif_value_deserialize` of any list / table blob from any state in which `rest` is live -/
+theorem deserV_summary (k : Nat) (b : VBlob) (s : St) (rest : List Nat) (hb : Balanced s.evs rest)
+    (hc : ∀ i ∈ rest, i ≤ s.count) :
+    Balanced (deserV k b s).2.2.evs ((match (deserV k b s).2.1 with | some g => g | none => []) ++ rest) ∧
+    ((deserV k b s).1 = OK ∨ (deserV k b s).1 = MEMORY_ERROR) ∧
+    ((deserV k b s).1 = OK ↔ (deserV k b s).2.1.isSome) ∧
+    ((deserV k b s).1 = MEMORY_ERROR ↔ s.count < k ∧ k ≤ s.count + deserVAllocs b) ∧
+    ((deserV k b s).1 = MEMORY_ERROR → failIds (deserV k b s).2.2.evs = failIds s.evs ++ [k] ∧ (deserV k b s).2.2.count = k) ∧
+    ((deserV k b s).1 = OK → failIds (deserV k b s).2.2.evs = failIds s.evs ∧
+        (deserV k b s).2.2.count = s.count + deserVAllocs b) := by
+  rcases deserV_spec k b s rest ⟨hb, hc⟩ with ⟨g, h1, h2, h3, h4⟩ | ⟨h1, h2, h3, h4⟩
+  · rw [h1, h2]
+    unfold Good at h3
+    refine ⟨h4.1, .inl rfl, by simp, ⟨fun h => absurd h OK_ne_MEMORY_ERROR.symm, fun h => absurd h h3.2.1⟩,
+      fun h => absurd h OK_ne_MEMORY_ERROR.symm, fun _ => ⟨h3.2.2, h3.1⟩⟩
+  · rw [h1, h2]
+    unfold Bad at h3
+    refine ⟨by simpa using h4.1, .inr rfl, by simp [OK_ne_MEMORY_ERROR], ⟨fun _ => ⟨h3.1, h3.2.1⟩, fun _ => rfl⟩,
+      fun _ => ⟨h3.2.2.2, h3.2.2.1⟩, fun h => absurd h OK_ne_MEMORY_ERROR⟩
+
+theorem deserV_faultfree (b : VBlob) (s : St) (rest : List Nat) (hb : Balanced s.evs rest) (hc : ∀ i ∈ rest, i ≤ s.count) :
+    (deserV 0 b s).1 = OK ∧ (deserV 0 b s).2.2.count = s.count + deserVAllocs b := by
+  have h := deserV_summary 0 b s rest hb hc
+  have hs : (deserV 0 b s).1 = OK := by
+    rcases h.2.1 with h1 | h1
+    · exact h1
+    · have := h.2.2.2.1.mp h1; omega
+  exact ⟨hs, (h.2.2.2.2.2 hs).2⟩
+
+-- the table-free fragment: the request counts agree with those of Lemmas/LadderClone
+mutual
+  theorem vallocs_toV : ∀ (sh : Shape), vallocs sh.toV = allocs sh
+    | .scalar => rfl
+    | .chr => rfl
+    | .numb _ => rfl
+    | .lst es => by simp only [Shape.toV, vallocs, allocs, vallocsList_toVs es]
+  theorem vallocsList_toVs : ∀ (es : List Shape), vallocsList (Shape.toVs es) = allocsList es
+    | [] => rfl
+    | e :: es => by simp only [Shape.toVs, vallocsList, allocsList, vallocs_toV e, vallocsList_toVs es]
+end
 
 end CifModel.Lemmas.Ladder
